@@ -8,6 +8,7 @@ import (
 	"fmt"
 	"os"
 	"path/filepath"
+	"regexp"
 	"strings"
 	"time"
 )
@@ -129,11 +130,9 @@ func RunProperty(p *Property, o Options) int {
 			}
 		}
 	}
+	var guardErr error
 	if p.Guard != nil && o.Only == "" {
-		if err := p.Guard(all); err != nil {
-			fmt.Fprintf(os.Stderr, "CHECK-BROKEN property=%s vacuity guard: %v\n", p.ID, err)
-			return 2
-		}
+		guardErr = p.Guard(all)
 	}
 	findings := loadFindings()
 	hmap := map[string]*Harness{}
@@ -192,7 +191,7 @@ func RunProperty(p *Property, o Options) int {
 				continue
 			}
 			nviol++
-			cl := st.Harness + " | " + v.What
+			cl := st.Harness + " | " + digitsRe.ReplaceAllString(v.What, "#")
 			classes[cl]++
 			if classEx[cl] == "" {
 				classEx[cl] = v.Key
@@ -294,8 +293,18 @@ func RunProperty(p *Property, o Options) int {
 	if nviol > 0 {
 		return 1
 	}
+	if guardErr != nil {
+		// nothing violated, but the exploration was too thin to mean anything
+		fmt.Fprintf(os.Stderr, "CHECK-BROKEN property=%s vacuity guard: %v\n", p.ID, guardErr)
+		return 2
+	}
 	return 0
 }
+
+var digitsRe = regexp.MustCompile(`[0-9]+`)
+
+// ClassOf normalises a violation description into its class (digits masked).
+func ClassOf(what string) string { return digitsRe.ReplaceAllString(what, "#") }
 
 func clipN(s string, n int) string {
 	if len(s) > n {
